@@ -555,8 +555,12 @@ impl<'tcx> Ex<'tcx> {
         let tcx = self.tcx;
         let mut o = String::from("[");
         let mut first = true;
-        for id in tcx.hir_crate_items(()).definitions() {
-            let did = id.to_def_id();
+        let mut dids: Vec<rustc_span::def_id::DefId> = tcx.hir_crate_items(()).definitions().map(|id| id.to_def_id()).collect();
+        // one foreign enum the rules reason about: which error kinds an `match e.kind() { .. }` handles
+        if let Some(ek) = tcx.get_diagnostic_item(rustc_span::Symbol::intern("io_errorkind")) {
+            dids.push(ek);
+        }
+        for did in dids {
             let kind = tcx.def_kind(did);
             if !matches!(kind, DefKind::Struct | DefKind::Enum) {
                 continue;
